@@ -7,6 +7,7 @@
 mod asmref;
 mod byteseng;
 mod common;
+mod ctxeng;
 mod isa;
 mod isaeng;
 mod memeng;
@@ -28,6 +29,7 @@ fn run_engine(prop: &str, s: &mut Sink) {
         "C01" => isaeng::run(s, vm::Eng::Interp),
         "C02" => memeng::run(s, false),
         "C11" => memeng::run(s, true),
+        "C09" => ctxeng::run(s),
         "C03" => isaeng::run(s, vm::Eng::Jit),
         "C04" => isaeng::run(s, vm::Eng::Cl),
         "C05" => byteseng::run(s, byteseng::Mode::C05),
@@ -51,6 +53,7 @@ pub fn replay_value(rp: &Value) -> Vec<String> {
         "isa-prog" => isaeng::replay_prog(rp),
         "isa-l4" => isaeng::replay_l4(rp),
         "mem" => memeng::replay(rp),
+        "ctx" => ctxeng::replay(rp),
         "verify" => byteseng::replay_verify(rp),
         "interp-total" => byteseng::replay_interp_total(rp),
         "compile-total" => byteseng::replay_compile_total(rp),
